@@ -25,7 +25,7 @@ if HERE not in sys.path:
     sys.path.insert(0, HERE)
 
 P_I32 = -7777777
-P_U16 = 0xABCD
+P_U16 = 0xFFFF          # never a coordinate (at most 65534) nor one of the generated uint16 values
 P_U32 = 0xABCDABCD
 P_I8 = -77
 P_U8 = 0xAB
@@ -80,14 +80,26 @@ class Ctx(object):
             return False
         return True
 
+    @staticmethod
+    def prepoison(nbytes):
+        """arrays the wrapper allocates itself (intent(out)) cannot be pre-filled by the caller.  Fresh memory from
+        the sanitizer allocator is 0xBE-filled (ASAN_OPTIONS), but numpy recycles freed blocks below 1 kB from its
+        own cache (last in, first out): park poisoned blocks of exactly that size there just before the call."""
+        if nbytes >= 8:
+            tmp = [np.full(nbytes // 8, P_F64) for _ in range(6)]
+            del tmp
+
     def defined_out(self, name, arr):
-        """arrays allocated by the wrapper (intent(out)): the sanitizer allocator filled them with 0xBE"""
+        """arrays allocated by the wrapper (intent(out)): 0xBE fill of the sanitizer allocator or the parked poison.
+        (numpy's f2py zero-fills the arrays it creates for intent(out)/intent(hide) arguments, so with the wrappers
+        of this numpy an unwritten cell reads 0, which the reference comparison judges; the poison test guards
+        against a wrapper generation that stops doing so.)"""
         self.checked.add(name)
         a = np.ascontiguousarray(arr).ravel()
         if a.size == 0:
             return True
         raw = a.view(np.uint8).reshape(a.size, a.dtype.itemsize)
-        badm = (raw == 0xBE).all(axis=1)
+        badm = (raw == 0xBE).all(axis=1) | (a == P_F64)
         if a.dtype.kind == "f":
             badm |= np.isnan(a)
         if badm.any():
@@ -358,6 +370,7 @@ def k_blobproperties(d, mat, cx):
     c = cx.c
     lab, n = components(im.m1, 1)
     npk = npk_of(d["par"], n)
+    cx.prepoison(npk * c.NPROPERTY * 8)
     res = cx.call(c.blobproperties, im.data, lab, npk, 1.5, 0)
     if res.shape != (npk, c.NPROPERTY):
         cx.bad("blobproperties: results shape %r for npk=%d" % (res.shape, npk))
@@ -808,6 +821,7 @@ def k_sparse_blob2d(d, mat, cx):
     if d["par"] == "zero":
         lab[:] = 0
     npk = npk_of(d["par"], n)
+    cx.prepoison(npk * c.NPROPERTY2D * 8)
     res = cx.call(c.sparse_blob2Dproperties, v, i, j, lab, npk)
     if res.shape != (npk, c.NPROPERTY2D):
         cx.bad("sparse_blob2Dproperties: results shape %r for npk=%d" % (res.shape, npk))
@@ -1651,6 +1665,7 @@ def main():
     with open(cases_path) as f:
         lines = f.readlines()
     cur = open(out_path + ".cur", "w")
+    log = open(out_path + ".log", "w")        # verdicts as they arise: survives a sanitizer abort of this process
     try:
         for idx, line in enumerate(lines):
             case = json.loads(line)
@@ -1670,6 +1685,8 @@ def main():
                         tk[case["d"]["k"]] = tk.get(case["d"]["k"], 0.0) + time.time() - t0
                         if st == "rejected":
                             out["rejected"].append([idx, why])
+                            log.write(json.dumps({"t": "r", "idx": idx, "why": why}) + "\n")
+                            log.flush()
                             break
                         k = case["d"]["k"]
                         prev = out["checked"].get(k)
@@ -1687,6 +1704,8 @@ def main():
             out["n"] += 1
             if probs:
                 out["problems"].append({"idx": idx, "problems": probs[:6]})
+                log.write(json.dumps({"t": "p", "idx": idx, "problems": probs[:6]}, default=_jd) + "\n")
+                log.flush()
             if idx % 5000 == 4999:
                 with open(out_path, "w") as g:
                     json.dump(dict(out, partial=True), g, default=_jd)
